@@ -38,7 +38,64 @@ func sameSource(a, b ssa.Value) bool {
 	}
 	ra, pa := accessPath(an.Strip(a))
 	rb, pb := accessPath(an.Strip(b))
-	return ra == rb && len(pa) > 0 && strings.Join(pa, ".") == strings.Join(pb, ".")
+	if ra != rb || len(pa) == 0 || strings.Join(pa, ".") != strings.Join(pb, ".") {
+		return false
+	}
+	// both read the same field of the same local variable: they see the same value only if the variable is
+	// not assigned between the two reads
+	al, isAlloc := ra.(*ssa.Alloc)
+	if !isAlloc {
+		return true
+	}
+	la, lb := loadInstr(an.Strip(a)), loadInstr(an.Strip(b))
+	if la == nil || lb == nil {
+		return false
+	}
+	for _, st := range storesInto(al) {
+		if (an.Reaches(la, st) && an.Reaches(st, lb)) || (an.Reaches(lb, st) && an.Reaches(st, la)) {
+			return false
+		}
+	}
+	return true
+}
+
+func loadInstr(v ssa.Value) ssa.Instruction {
+	for i := 0; i < 8; i++ {
+		switch x := v.(type) {
+		case *ssa.UnOp:
+			return x
+		case *ssa.Field:
+			v = x.X
+		default:
+			return nil
+		}
+	}
+	return nil
+}
+
+// storesInto returns the stores to a local variable or to any of its fields.
+func storesInto(al *ssa.Alloc) []ssa.Instruction {
+	var out []ssa.Instruction
+	var walk func(v ssa.Value, d int)
+	walk = func(v ssa.Value, d int) {
+		if v.Referrers() == nil || d > 4 {
+			return
+		}
+		for _, ref := range *v.Referrers() {
+			switch x := ref.(type) {
+			case *ssa.Store:
+				if x.Addr == v {
+					out = append(out, x)
+				}
+			case *ssa.FieldAddr:
+				walk(x, d+1)
+			case *ssa.IndexAddr:
+				walk(x, d+1)
+			}
+		}
+	}
+	walk(al, 0)
+	return out
 }
 
 // headerSets returns the calls w.Header().Add/Set(key, v) of fn with a constant key.
